@@ -164,10 +164,16 @@ func (a *Application) filterModelsByProvider(ctx context.Context, models []*doma
 
 	providerProfile := a.createProviderProfile(providerType)
 
-	// Need to map endpoint URLs to their types for compatibility checking
+	// Need to map endpoint URLs to their types for compatibility checking. Only endpoints that
+	// can take traffic count: a model on a healthy endpoint of another provider and an
+	// unhealthy endpoint of this one is not available under this provider's prefix.
 	endpointTypes := make(map[string]string)
+	knownEndpoints := make(map[string]struct{}, len(endpoints))
 	for _, ep := range endpoints {
-		endpointTypes[ep.URLString] = ep.Type
+		knownEndpoints[ep.URLString] = struct{}{}
+		if ep.Status.IsRoutable() {
+			endpointTypes[ep.URLString] = ep.Type
+		}
 	}
 
 	providerModels := make([]*domain.UnifiedModel, 0)
@@ -175,7 +181,11 @@ func (a *Application) filterModelsByProvider(ctx context.Context, models []*doma
 		// Models can be available from multiple sources. Check if any of them
 		// match our provider constraint.
 		hasProvider := false
+		sourcesKnown := false
 		for _, source := range model.SourceEndpoints {
+			if _, known := knownEndpoints[source.EndpointURL]; known {
+				sourcesKnown = true
+			}
 			if endpointType, ok := endpointTypes[source.EndpointURL]; ok {
 				normalisedType := NormaliseProviderType(endpointType)
 				if providerProfile.IsCompatibleWith(normalisedType) {
@@ -184,8 +194,9 @@ func (a *Application) filterModelsByProvider(ctx context.Context, models []*doma
 				}
 			}
 		}
-		// Model aliases provide another way to determine provider association
-		if !hasProvider {
+		// Model aliases provide another way to determine provider association, for models
+		// whose sources cannot be matched to a configured endpoint
+		if !hasProvider && !sourcesKnown {
 			for _, alias := range model.Aliases {
 				normalisedSource := NormaliseProviderType(alias.Source)
 				if providerProfile.IsCompatibleWith(normalisedSource) {
